@@ -232,7 +232,26 @@ def task_names(prog: dict) -> list[str]:
 
 # ===================================================================================================== interpreter
 class _Task(asyncio.Task):  # type: ignore[type-arg]
-    """asyncio.Task that reports every cancel() call to the running interpreter (observation only)."""
+    """asyncio.Task that reports every cancel() call to the running interpreter (observation only).
+
+    Its hash is its creation number in the run instead of its address: asyncio.TaskGroup keeps its children in a
+    ``set`` and cancels them in iteration order, which would otherwise make the order of sibling cancellations (and
+    with it the trace) depend on memory addresses."""
+
+    def __init__(self, coro: Any, **kw: Any):
+        run = _CURRENT[0]
+        if run is not None:
+            run.task_no += 1
+            self._sim_no = run.task_no
+        else:  # pragma: no cover
+            self._sim_no = 0
+        super().__init__(coro, **kw)  # registers the task in a WeakSet: the hash must exist already
+
+    def __hash__(self) -> int:
+        return self._sim_no
+
+    def __eq__(self, other: object) -> bool:
+        return self is other
 
     def cancel(self, msg: Any = None) -> bool:
         run = _CURRENT[0]
@@ -328,6 +347,7 @@ class Run:
         self.steps = 0
         self.ext_source = "tg"  # who is calling task.cancel() without message right now
         self.stmt_index = index_program(prog)
+        self.task_no = 0
 
     # ---------------------------------------------------------------- observation
     def on_task_cancel(self, task: Any, msg: Any, accepted: bool) -> None:
